@@ -25,6 +25,22 @@ Property theorems only.  Layers:
    permutation, so `det = ∏ diagonal` (any mask, any degree order, any size);
 3. linear family: `log|det (L U)| = Σ log diag U`;
 4. composition: log-abs-dets add; box rescaling adds `log((top-bottom)/(right-left))`.
+
+Later layers (same namespace): whole executed spline programs and the executed coupling / autoregressive layers
+(`Properties/C01J.lean`: the returned `ld[b]` is `log|det|` of the Fréchet derivative of the executed row map).
+
+**What no theorem in this namespace covers** (these parts of "every transform" are carried by the correspondence run and the
+Jacobian oracle only; an external audit of the artefact asked for this list): the scalar laws below are about closed forms —
+only Tanh (`tanh_executed_logdet`) is tied to the executed `tanhT`; `sigmoid_logdet` uses the ideal softplus, the executed
+`sigmoidT` the thresholded one; `leakyReluT` takes its `log_negative_slope` attribute as an argument (that it equals
+`log slope` is checked by the correspondence); `glu_logdet` is the arithmetic `D · log g`, not a statement about `gluT`.
+No theorem here for the log-det of `OneByOneConvolution` / 4-D `ActNorm` / `BatchNorm` (the `H·W` factor), QR / SVD / naive /
+Householder layers (their matrix identities are in C11), permutations, squeeze, multiscale, `LogTanh`, `CauchyCDF`, `Logit`, UMNN;
+image-shaped coupling inputs (`S > 1`) have the left-fold form of the log-det but no Jacobian statement; bounded splines are
+covered strictly inside bins (cubic and RQ-with-tails also at knots), not at the end-points of the box; per-element derivative
+laws inside layers are discharged for affine, additive and RQ(-tails) elements, not for quadratic / cubic / linear ones;
+Fréchet differentiability of a row map through a conditioner is a hypothesis (discharged for constant / affine conditioners).
+Arrays are read with `getD`: a conditioner output of the wrong size is read as zeros where PyTorch raises.
 -/
 open DualSound NF
 
